@@ -260,19 +260,31 @@ REG['C19'] = dict(
     technique='Lean 4 proof (fold invariant: first strict maximum) + differential correspondence',
     ref='§5-C19')
 REG['C20'] = dict(
-    text=PARTIAL + 'Lean 4 theorems over a symbolic model of the key/value cache protocol (slots tagged with the batch and step that '
-         'wrote them, torch.empty = garbage): for EVERY history of batches with equal or different batch sizes and source lengths, '
+    text=PARTIAL + 'Lean 4 theorems over TWO models of the transformer decoder. (1) Functional model (Model/Decoder): DecoderLayer.infer / '
+         'Decoder.infer / transcribe_batch\'s step loop with their persistent state (self-attention K/V cache, cross-attention K/V, '
+         'memory_tgt) over ABSTRACT layer functions - for EVERY choice of projections, attention, norms and feed-forward functions, every '
+         'number of layers, every fed symbol sequence and EVERY state left behind by earlier lines (stale caches, torch.empty garbage): '
+         'the scores of every cached step = those of recomputing every step = position t of the full masked (teacher-forced) pass '
+         '(cached_eq_full, uncached_eq_full, cached_eq_uncached), the masked pass is causal (full_prefix) and decoding after any history '
+         '= decoding with fresh objects (history_independent). (2) Cache protocol with tags (Model/KVCache): for EVERY history of '
+         'batches with equal or different batch sizes and source lengths, '
          'every slot read at step t of batch n was written in batch n at a step <= t and the cross-attention K/V are those of batch n '
          '(never garbage, never a stale value); the view/transpose index algebra addresses the same cell and is lane preserving; the '
          'decoding loop stops within W/4 + 2 network evaluations for every network; the post-processed transcription contains no '
-         'boundary / ignore symbol. Tie to the real code without source hooks: tensor snapshots around every Decoder.infer call give '
+         'boundary / ignore symbol. Tie to the real code without source hooks: the driver prints the functional model\'s computation '
+         'as TERMS over free function symbols; the harness evaluates these terms with the real modules\' weights and kernels and compares '
+         'the values with the real Decoder.infer (cached, uncached, after a history of other batches) and the real masked '
+         'TransformerDecoder.forward on forced symbol sequences (incl. boundary / ignore symbols mid-sequence); tensor snapshots around '
+         'every Decoder.infer call give '
          'the real write sets and re-allocations (compared with the model), and every slot the model calls invalid is poisoned with '
          'NaN before each step - the outputs stay NaN-free and bit-identical; postprocess_decoded against the model and an independent '
-         'oracle (symbols, prefix, batch independence). NOT decided by proof: float equality of cached vs. '
-         'uncached vs. teacher-forced scores, per-line and per-history independence of the numbers (checked differentially, 1e-4).',
-    note='Trusted: PyTorch kernels act lane-wise; random-weight small models stand in for trained ones; the VGG front-end is replaced '
-         'by a conv stub (it downloads weights).',
-    technique='Lean 4 proof (cache-freshness invariant over batch histories) + snapshot/NaN-poisoning correspondence (partial)',
-    ref='§5-C20')
+         'oracle (symbols, prefix, batch independence). NOT decided by proof: that the float32 kernels evaluate the same term to the same '
+         'number on every route, and lane-wise action of the batched kernels (per-line independence): checked differentially, 1e-4.',
+    note='Trusted: PyTorch kernels act lane-wise and are deterministic functions of their inputs; random-weight small models stand in for '
+         'trained ones; the VGG front-end is replaced by a conv stub (it downloads weights); the term evaluator (harness) interprets the '
+         'symbols kv/sa/pm/ca/add/n1-3/ff with the real weights.',
+    technique='Lean 4 proof (refinement: cached/uncached step machine = masked pass, by a per-layer invariant over steps; cache-freshness '
+              'invariant over batch histories) + term-evaluation and snapshot/NaN-poisoning correspondence (partial)',
+    ref='§5-C20, §10.9')
 REG.update(REG13)
 NOT_YET = {}
